@@ -5,7 +5,9 @@
 void ls_to_canon(const ascon_state_t *s, uint64_t x[5]);
 void ls_from_canon(ascon_state_t *s, const uint64_t x[5]);
 extern unsigned ls_n_impl, ls_n_spec;
+extern int ls_replay_mode;   /* FORM_T only */
 void ls_done(void);
+void ls_impl_P(uint64_t x[5], unsigned first_round);   /* FORM_T only */
 #if defined(FORM_T)
 void ls_done_allow(unsigned allowed_trailing);
 #else
